@@ -29,8 +29,10 @@ def classify(hy, tree, timeout=3.0):
     mod = types.ModuleType(name)
     sys.modules[name] = mod
     stage = "hy_compile"
-    signal.signal(signal.SIGALRM, _alarm)
-    signal.setitimer(signal.ITIMER_REAL, timeout)
+    # CPU time of this process, not wall time: on a loaded machine a starved worker must not be interrupted at a random
+    # point (an exception raised while an import lock is held leaves the worker dead-locked)
+    signal.signal(signal.SIGVTALRM, _alarm)
+    signal.setitimer(signal.ITIMER_VIRTUAL, timeout)
     try:
         with warnings.catch_warnings():
             warnings.simplefilter("ignore")
@@ -52,7 +54,7 @@ def classify(hy, tree, timeout=3.0):
             return ("user-error", stage, type(e).__name__, msg[:300])
         return ("violation", stage, type(e).__name__, msg[-600:] if type(e).__name__ == "HyCompileError" else msg[:300])
     finally:
-        signal.setitimer(signal.ITIMER_REAL, 0)
+        signal.setitimer(signal.ITIMER_VIRTUAL, 0)
         sys.modules.pop(name, None)
 
 
